@@ -163,8 +163,15 @@ def _worker(prop_name: str, tier: str, wseed: int, n_examples: int, excluded: Li
                 try:
                     res = prop.check(case)
                 except CaseTimeout:
-                    res = Result()
-                    res.fail("hang|check-did-not-finish", f"the check of one case did not finish within {case_timeout_s} s (endless loop or pathological blow-up in the code under test)")
+                    # slow machine or endless loop?  One more attempt with ten times the allowance decides: only a case that
+                    # does not finish then either is reported (a time budget alone is never a violation)
+                    signal.setitimer(signal.ITIMER_REAL, case_timeout_s * 10)
+                    try:
+                        res = prop.check(case)
+                        res.label("slow-case-retried")
+                    except CaseTimeout:
+                        res = Result()
+                        res.fail("hang|check-did-not-finish", f"the check of one case did not finish within {case_timeout_s * 10:.0f} s (endless loop or pathological blow-up in the code under test)")
                 finally:
                     signal.setitimer(signal.ITIMER_REAL, 0)
                 took = time.time() - now
@@ -273,7 +280,7 @@ def _worker(prop_name: str, tier: str, wseed: int, n_examples: int, excluded: Li
 # --------------------------------------------------------------------------------------------------------------------
 
 
-def replay_case(prop, case, times: int = 2, timeout_s: float = 60.0):
+def replay_case(prop, case, times: int = 2, timeout_s: float = 300.0):
     """Runs check(case) without Hypothesis; returns the violations of the last run."""
     res = None
     old = signal.signal(signal.SIGALRM, _on_alarm)
@@ -337,7 +344,7 @@ def run_property(prop_id: str, tier: str, workers: Optional[int], examples: Opti
     workers = workers or min(16, ncpu)
     budget = prop.BUDGET[tier]
     per_worker = examples if examples is not None else max(1, budget["examples"] // workers)
-    deadline_s = float(budget.get("deadline_s", 75 if tier == "quick" else 1500))
+    deadline_s = float(budget.get("deadline_s", 240 if tier == "quick" else 1500))
     shrink_s = float(budget.get("shrink_s", 20 if tier == "quick" else 120))
 
     known = [k for k in load_known() if k["property"] == prop_id]
@@ -407,7 +414,7 @@ def run_property(prop_id: str, tier: str, workers: Optional[int], examples: Opti
         p.start()
         procs.append(p)
     results = []
-    hard_deadline = time.time() + deadline_s + shrink_s * 4 + 120
+    hard_deadline = time.time() + deadline_s + shrink_s * 4 + 450
     while len(results) < workers and time.time() < hard_deadline:
         try:
             results.append(q.get(timeout=5))
